@@ -49,6 +49,10 @@ def parseLogic? : String → Option Logic
   | "and" => some .and | "or" => some .or | "xor" => some .xor
   | _ => none
 
+def parseArith? : String → Option Arith
+  | "add" => some .add | "sub" => some .sub | "mul" => some .mul
+  | _ => none
+
 def parseVariant? : String → Option Variant
   | "spec" => some .spec | "asis" => some .asis | "code" => some codeVariant
   | _ => none
@@ -77,6 +81,14 @@ def evalExpr (w : World) : List String → Option (Except Err Arr × List String
       some (logicArr w.au (← w.find a) (← w.find b) (← parseLogic? op), r)
   | "logics" :: a :: op :: v :: r => do
       some (logicScalar w.au (← w.find a) (← parseLogic? op) (← parseVal? v), r)
+  | "isnan" :: nm :: r => do some (.ok (isnan w.au (← w.find nm)), r)
+  | "notnan" :: nm :: r => do some (.ok (notnan w.au (← w.find nm)), r)
+  | "arith" :: nm :: op :: v :: r => do
+      some (.ok (arithScalar w.au (← w.find nm) (← parseArith? op) (← parseVal? v)), r)
+  | "aritharr" :: a :: op :: b :: r => do
+      some (.ok (arithArr w.au (← w.find a) (← w.find b) (← parseArith? op)), r)
+  | "cmparith" :: nm :: aop :: v :: cop :: x :: r => do
+      some (.ok (cmpScalar w.au (arithScalar w.au (← w.find nm) (← parseArith? aop) (← parseVal? v)) (← parseCmp? cop) (← parseVal? x)), r)
   | "notcmp" :: nm :: op :: v :: r => do
       some (invert w.au (cmpScalar w.au (← w.find nm) (← parseCmp? op) (← parseVal? v)), r)
   | _ => none
@@ -85,6 +97,7 @@ def evalExpr (w : World) : List String → Option (Except Err Arr × List String
     Returns an error when the key expression itself raises. -/
 def parseKey (w : World) : List String → Option (Except Err Key × List String)
   | "uids" :: l :: r => do some (.ok (.uids (← parseNatList? l)), r)
+  | "ruids" :: l :: r => do some (.ok (.ruids (← parseIntList? l)), r)
   | "int" :: i :: r => do some (.ok (.int (← parseInt? i)), r)
   | "slice" :: s :: e :: t :: r => do
       some (.ok (.slice (← parseOptInt? s) (← parseOptInt? e) (← parseOptInt? t)), r)
@@ -188,6 +201,39 @@ def stepLine (w : World) (line : String) : World × String :=
       | some (.ok a, []) => (w, "ok " ++ showView w a ++ s!" raw={showVals a.raw}")
       | some (.error e, []) => (w, showErr e)
       | _ => (w, "bad-op")
+  | ["notnanvals", nm] =>
+      match w.find nm with
+      | some a => (w, "ok vals=" ++ showVals (notnanvals w.au a))
+      | none => (w, "bad-op")
+  | ["iter", nm] =>
+      match w.find nm with
+      | some a => (w, "ok vals=" ++ showVals (values w.au a))
+      | none => (w, "bad-op")
+  | "split" :: rest =>
+      match evalExpr w rest with
+      | some (.ok a, []) => let (t, f) := split w.au a; (w, s!"ok true={showNats t} false={showNats f}")
+      | some (.error e, []) => (w, showErr e)
+      | _ => (w, "bad-op")
+  | ["setnan", nm, l] =>
+      match w.find nm, parseNatList? l with
+      | some a, some us =>
+          match setNan a us with
+          | .ok a' => let w' := w.put nm a'; (w', "ok " ++ showArr nm a')
+          | .error e => (w, showErr e)
+      | _, _ => (w, "bad-op")
+  | "usetb" :: op :: a :: rest =>
+      -- a uid-set operator whose right operand is a BoolArr: its true uids
+      match parseNatList? a, evalExpr w rest with
+      | some a, some (.ok b, []) =>
+          let bu := trueUids w.au b
+          match op with
+          | "remove" => (w, "ok " ++ showNats (Uids.remove a bu))
+          | "intersect" => (w, "ok " ++ showNats (Uids.intersect a bu))
+          | "union" => (w, "ok " ++ showNats (Uids.union a bu))
+          | "xor" => (w, "ok " ++ showNats (Uids.xor a bu))
+          | _ => (w, "bad-op")
+      | some _, some (.error e, []) => (w, showErr e)
+      | _, _ => (w, "bad-op")
   | ["reduce", nm] =>
       match w.find nm with
       | some a => (w, s!"ok len={len w.au a} count={count w.au a} sum={showVal (sum w.au a)} mean={showOptVal (mean w.au a)} min={showOptVal (minV w.au a)} max={showOptVal (maxV w.au a)} any={showBool (anyV w.au a)} all={showBool (allV w.au a)}")
